@@ -22,7 +22,7 @@ typedef struct { T o; unsigned char m[LMAX + 1]; int n; } st_t;
 
 enum { K_NEW, K_NEW_PTR, K_NEW_BUFF,
        K_APP_OBJ, K_PRE_OBJ, K_APP_PTR, K_PRE_PTR,
-       K_SPLICE, K_SPLICE_PTR, K_TRIM, K_REV, K_CLEAR, K_SPRINTF, K_DONE, K_DONE_INIT, K_DONE_INIT_PTR };
+       K_SPLICE, K_SPLICE_PTR, K_TRIM, K_REV, K_CLEAR, K_SPRINTF, K_DONE, K_DONE_INIT, K_DONE_INIT_PTR, K_APP_SELF, K_PRE_SELF, K_SPLICE_SELF };
 typedef struct { int k, a, b, c; bs_t t; } op_t;
 static op_t OPS[6000]; static int NOPS;
 static const bs_t NUL_ = { NULL, 0 };
@@ -54,6 +54,7 @@ static void build_ops(void)
     for (int i = 0; i < 4; i++) add(K_SPRINTF, i, 0, 0, NUL_);
     add(K_DONE, 0, 0, 0, NUL_); add(K_DONE_INIT, 0, 0, 0, NUL_);
     { bs_t b = BS("\xff"); add(K_DONE_INIT_PTR, 0, 0, 0, b); }
+    add(K_APP_SELF, 0, 0, 0, NUL_); add(K_PRE_SELF, 0, 0, 0, NUL_); add(K_SPLICE_SELF, 0, 0, 0, NUL_); add(K_SPLICE_SELF, 1, 1, 0, NUL_);
 }
 static void bse(bs_t t, char *e, size_t n) { if (!t.p) snprintf(e, n, "NULL"); else { e[0] = '"'; mc_esc(t.p, (size_t) t.n, e + 1, n - 3); strcat(e, "\""); } }
 static void op_name(int i, char *b, size_t n)
@@ -76,6 +77,9 @@ static void op_name(int i, char *b, size_t n)
     case K_DONE: snprintf(b, n, "done()"); break;
     case K_DONE_INIT: snprintf(b, n, "done()+init()"); break;
     case K_DONE_INIT_PTR: snprintf(b, n, "done()+init_from_ptr(\"\\xff\",1)"); break;
+    case K_APP_SELF: snprintf(b, n, "append(self)"); break;
+    case K_PRE_SELF: snprintf(b, n, "prepend(self)"); break;
+    case K_SPLICE_SELF: snprintf(b, n, "splice(%d,%d,self)", o->a, o->b); break;
     }
 }
 static void *fresh(void) { return calloc(1, sizeof(st_t)); }
@@ -127,6 +131,8 @@ static int would_len(st_t *s, op_t *o)
 {
     switch (o->k) {
     case K_APP_OBJ: case K_PRE_OBJ: case K_APP_PTR: case K_PRE_PTR: return s->n + tlen(o->t);
+    case K_APP_SELF: case K_PRE_SELF: return 2 * s->n;
+    case K_SPLICE_SELF: { int i = o->a, c = o->b; if (!splice_norm(s->n, &i, &c)) return s->n; return 2 * s->n - c; }
     case K_SPLICE: case K_SPLICE_PTR: { int i = o->a, c = o->b; if (!splice_norm(s->n, &i, &c)) return s->n; return s->n - c + tlen(o->t); }
     default: return s->n;
     }
@@ -206,6 +212,12 @@ static void apply(void *vs, int op)
         case 3: r = F(sprintf)(self, (spif_charptr_t) NULL); model_set(s, "", 0); expect_r = 0; break;
         }
         break;
+    case K_APP_SELF: case K_PRE_SELF: { r = o->k == K_APP_SELF ? F(append)(self, self) : F(prepend)(self, self);        /* the object is its own argument */
+        unsigned char tmp[LMAX * 2 + 2]; memcpy(tmp, s->m, (size_t) s->n); memcpy(tmp + s->n, s->m, (size_t) s->n); model_set(s, tmp, 2 * s->n); break; }
+    case K_SPLICE_SELF: { int i = o->a, c = o->b, ok = splice_norm(s->n, &i, &c);
+        r = F(splice)(self, o->a, o->b, self); expect_r = ok; shape = ok ? "splice with self" : "splice out of range";
+        if (ok) { unsigned char tmp[LMAX * 3 + 2]; memcpy(tmp, s->m, (size_t) i); memcpy(tmp + i, s->m, (size_t) s->n); memcpy(tmp + i + s->n, s->m + i + c, (size_t) (s->n - i - c)); model_set(s, tmp, 2 * s->n - c); }
+        break; }
     case K_DONE: r = F(done)(self); model_set(s, "", 0); if (self->buff) FAIL(CLS "_done", "model:not-emptied", shape, "buffer still set after done()"); break;
     case K_DONE_INIT: F(done)(self); r = F(init)(self); model_set(s, "", 0); break;
     case K_DONE_INIT_PTR: F(done)(self); r = F(init_from_ptr)(self, (spif_byteptr_t) "\xff", 1); model_set(s, "\xff", 1); break;
